@@ -106,6 +106,9 @@ def shape_flags(prog):
                 flags.add("exit-in-exit-condition")
             if e == "list" and len(x.get("args", [])) == 1 and x["args"][0].get("e") == "if":
                 flags.add("singleton-bracket-if")
+            if e in ("for", "forin") and x.get("filt") and x["filt"].get("e") != "none" \
+                    and (assigned_names(x["body"]) & mentioned_names(x["filt"])):
+                flags.add("loop-filter-mentions-assigned-variable")
             if e == "try" and in_gen:
                 flags.add("try-in-generator")
             if e == "try" and nested and any(h.get("ps") for h in x.get("hs", [])):
@@ -124,6 +127,32 @@ def shape_flags(prog):
         elif isinstance(x, list):
             for v in x:
                 walk(v, top_loop, top_if, in_fun, in_gen, nested)
+
+    def assigned_names(x):
+        out = set()
+        if isinstance(x, dict):
+            if x.get("e") == "asg":
+                out.add(x["x"])
+            if x.get("e") == "masg":
+                out.update(x["xs"])
+            for v in x.values():
+                out |= assigned_names(v)
+        elif isinstance(x, list):
+            for v in x:
+                out |= assigned_names(v)
+        return out
+
+    def mentioned_names(x):
+        out = set()
+        if isinstance(x, dict):
+            if x.get("e") == "var":
+                out.add(x["x"])
+            for v in x.values():
+                out |= mentioned_names(v)
+        elif isinstance(x, list):
+            for v in x:
+                out |= mentioned_names(v)
+        return out
 
     def has_try(x):
         if isinstance(x, dict):
